@@ -461,6 +461,93 @@ func runC02(r *Run) {
 			r.Violation("c02-loop-status", "a refused cookie is not answered with cookie-access-denied (0x800759F8) and the end of the tunnel", fmt.Sprintf("smartcardauth=%v, handshake extended-auth field %d, cookie %q\ntrace %s\n", lc.sc, lc.ext, ck, implModelCanon(ir, true)))
 		}
 	}
+	// ---- the real handler over both real transports: the decision is taken when TUNNEL_CREATE arrives, not
+	// when the connection was made (a tunnel can be parked between the two)
+	r.TierRan("api(handler)")
+	gws := startGateway(&protocol.Gateway{TokenAuth: true, CheckPAACookie: security.CheckPAACookie})
+	idp.setToken("at-parked", "ok:subject-1")
+	type parked struct {
+		kind, what, cookie string
+		wantOK             bool
+		cl                 gwClient
+		pr                 *packetReader
+	}
+	t0 := time.Now().Unix()
+	expiring := signCompact(hdr(), claims("at-valid", func(m map[string]interface{}) { m["exp"] = t0 - 55 }), "HS256", key)
+	var pk []*parked
+	for _, kind := range []string{"ws", "legacy"} {
+		pk = append(pk,
+			&parked{kind: kind, what: "fresh cookie, TUNNEL_CREATE at once", cookie: mint("at-valid", "host:3389", "192.0.2.1"), wantOK: true},
+			&parked{kind: kind, what: "cookie within its leeway at connection time, TUNNEL_CREATE at once", cookie: expiring, wantOK: true},
+			&parked{kind: kind, what: "cookie within its leeway at connection time, TUNNEL_CREATE after expiry plus leeway have passed", cookie: expiring, wantOK: false},
+			&parked{kind: kind, what: "access token honoured at connection time and revoked before TUNNEL_CREATE", cookie: mint("at-parked", "host:3389", "192.0.2.1"), wantOK: false},
+			&parked{kind: kind, what: "fresh cookie, TUNNEL_CREATE after the tunnel was parked for a while", cookie: mint("at-valid", "host:3389", "192.0.2.1"), wantOK: true})
+	}
+	for _, q := range pk {
+		connID := "{" + randHex(8) + "}"
+		if q.kind == "ws" {
+			if w, err := dialWS(gws.addr, connID, ""); err == nil {
+				q.cl, q.pr = w, readWS(w, 20*time.Second)
+			}
+		} else if l, err := dialLegacy(gws.addr, connID, ""); err == nil {
+			q.cl, q.pr = l, readLegacy(l, 20*time.Second)
+		}
+		if q.cl == nil {
+			r.Inconclusive()
+			continue
+		}
+		q.cl.send(mkPacket(tHandshake, bodyHandshake(1, 0, 0, 2)))
+	}
+	finish := func(q *parked) {
+		if q.cl == nil {
+			return
+		}
+		defer q.cl.close()
+		q.cl.send(mkPacket(tTunnel, bodyTunnelCreate(0, 1, append(utf16le(q.cookie), 0, 0))))
+		deadline := time.Now().Add(5 * time.Second)
+		var pkts [][]byte
+		ended := false
+		for time.Now().Before(deadline) {
+			pkts, ended = q.pr.snapshot()
+			if len(pkts) >= 2 && (q.wantOK || ended) {
+				break
+			}
+			time.Sleep(2 * time.Millisecond)
+		}
+		r.Count("handler:" + q.kind + ":" + q.what)
+		r.Dist("handler:" + q.kind)
+		rep := fmt.Sprintf("transport %s through the real handler with security.CheckPAACookie: %s\ncookie %s\nresponses %s, tunnel ended=%v\n", q.kind, q.what, q.cookie, pktsCanon(pkts), ended)
+		if len(pkts) < 2 || len(pkts[1]) < 14 {
+			if q.kind == "legacy" && len(pkts) == 0 && !ended {
+				r.Inconclusive() // the IN handler's Drain took the handshake
+				return
+			}
+			r.Violation("c02-loop", "tunnel create not answered", rep)
+			return
+		}
+		st := hx(pkts[1][10:14])
+		if q.wantOK && st != "00000000" {
+			r.Violation("c02-loop-fresh", "a valid cookie is not accepted by the packet loop", rep)
+		}
+		if !q.wantOK && (st != "f8590780" || !ended) {
+			r.Violation("c02-accepts-parked", "a cookie that has expired, or whose access token the IdP no longer honours, by the time TUNNEL_CREATE arrives is not refused with cookie-access-denied and the end of the tunnel", rep)
+		}
+	}
+	for _, q := range pk {
+		if strings.Contains(q.what, "at once") {
+			finish(q)
+		}
+	}
+	idp.setToken("at-parked", "revoked")
+	for time.Now().Unix() < t0+7 { // exp + 60 s leeway is t0 + 5
+		time.Sleep(50 * time.Millisecond)
+	}
+	for _, q := range pk {
+		if !strings.Contains(q.what, "at once") {
+			finish(q)
+		}
+	}
+	gws.close()
 	r.extra["model_disagreements"] = drift
 	if drift > 0 && !r.HasViolation() {
 		r.Unproven(fmt.Sprintf("correspondence Cookie.check = CheckPAACookie broke on %d well-formed cases (the implementation refuses what the model accepts)", drift), first)
